@@ -40,8 +40,16 @@ P = {
          "Every encodable type in the four packages (the list is recomputed from /repo with go/parser on every run and uncovered types are reported) is reached by generated values; for each value and recursively each child the monitor asserts len(encoding) == Len() and that the parent's bytes are header + the children's own standalone encodings in order + zero padding.",
          "Only parents' fixed header sizes come from the reference model. Well-formed values only.",
          "5/C06"),
- "C07": (False, "", "", "", "5/C07"),
- "C08": (False, "", "", "", "5/C08"),
+ "C07": (True,
+         'runtime monitor: totality monitor (panic / CPU-time budget / allocation budget / neither-message-nor-error) around the real parser entry point on structure-aware hostile variants of conformant frames, in sacrificial worker processes',
+         "Conformant frames of every switch- and controller-originated kind (written by the independent reference encoder) are turned into tens of millions of hostile variants per run - every truncation, boundary values in every byte and every 16/32-bit word at every offset (so every length/count/type/class field takes 0, 1, maximum and off-by-one values), deletions, duplications, extensions to 65535 bytes, random corruption, second-generation variants of accepted variants, and all tiny inputs - and each is given to the parser entry point under a monitor that reports a panic, more than 4 CPU-seconds, an allocation above 4 MiB + 1024 x input length, or a (nil, nil) result. A wedged call poisons only its worker process, which is restarted behind the case.",
+         'Budgets are generous linear bounds (a slower-than-linear decoder inside them is not detected). Holds for the generated inputs only.',
+         "5/C07"),
+ "C08": (True,
+         'runtime monitor: the same totality monitor around each of the 24 packet-header decoder entry points (and the packet-in path) on hostile variants of well-formed packets',
+         "For every decoder entry point separately, well-formed packets written by the reference packet encoder (all payload and extension-header chains, option/source/record counts, up to jumbo size) are mutated as for C07, with the byte and word value tables chosen to hit 8- and 16-bit wrap-around of derived sizes (HEL 255, option length 254/255, 16384 sources, IHL 0..15), plus pure random inputs; each call runs under the panic / CPU / allocation monitor.",
+         'Budgets are generous linear bounds. Holds for the generated inputs only.',
+         "5/C08"),
  "C09": (False, "", "", "", "5/C09"),
  "C10": (False, "", "", "", "5/C10"),
  "C11": (False, "", "", "", "5/C11"),
